@@ -1523,9 +1523,16 @@ class StateEngine(object):
 
                             """
                             Tidy up self.branch_metadata for current execution_arn
-                            before republishing the Task state event.
+                            before republishing the state event, but only when
+                            the state being retried is itself a Map or Parallel
+                            state (its failed branches have to be wound up).
+                            Retrying a Task that merely runs inside a branch
+                            must leave the results and the unacknowledged
+                            events of its sibling branches alone.
                             """
-                            if execution_arn in self.branch_metadata:
+                            if execution_arn in self.branch_metadata and (
+                                state_type == "Map" or state_type == "Parallel"
+                            ):
                                 self.check_pending_results(execution_arn)
 
                             """
